@@ -39,7 +39,7 @@ NoConn == "-"       \* "no connection" (comparable with peer names that are stri
 
 VARIABLES st,      \* manager: piece -> [k: "M"|"R"|"H", n: reservation count]
           mp,      \* manager: connected peer -> Peer record
-          round,   \* manager: optimistic round counter
+          mg,      \* manager globals: [r: optimistic round counter, cands: tracker candidates not yet tried, ext: extraction started]
           mq,      \* command queue handler -> manager (global FIFO): [k, c, a]
           h,       \* connection task of each peer
           bq,      \* per connection: pending broadcast messages
@@ -50,7 +50,7 @@ VARIABLES st,      \* manager: piece -> [k: "M"|"R"|"H", n: reservation count]
           due,     \* ghost (C11): per connection the pieces whose completion was broadcast to it
           ann      \* ghost (C11): per connection the pieces announced with a Have frame, in order
 
-vars == <<st, mp, round, mq, h, bq, stored, sent, wire, panic, due, ann>>
+vars == <<st, mp, mg, mq, h, bq, stored, sent, wire, panic, due, ann>>
 
 -----------------------------------------------------------------------------
 (* Records *)
@@ -101,7 +101,7 @@ UnchokedNum == IF Bug("optCount") THEN Cardinality({k \in Conn : ~mp[k].amCh /\ 
 -----------------------------------------------------------------------------
 Init == /\ st = [p \in Pieces |-> [k |-> IF p \in Own0 THEN "H" ELSE "M", n |-> 0]]
         /\ mp = [k \in {} |-> NewPeer]
-        /\ round = 0
+        /\ mg = [r |-> 0, cands |-> 0, ext |-> FALSE]
         /\ mq = <<>>
         /\ h = [k \in Peers |-> DeadH]
         /\ bq = [k \in Peers |-> <<>>]
@@ -144,7 +144,9 @@ Connect(k, inc) ==
                             ELSE IF inc THEN NewH(TRUE)
                             ELSE [NewH(FALSE) EXCEPT !.trig = [t |-> "Start"]]]
   /\ NoSend /\ UNCHANGED mq
-  /\ UNCHANGED <<st, round, stored, panic>>
+  \* a connection we open takes the next candidate announced by the tracker
+  /\ mg' = IF inc THEN mg ELSE [mg EXCEPT !.cands = IF @ > 0 THEN @ - 1 ELSE 0]
+  /\ UNCHANGED <<st, stored, panic>>
 
 \* the task ends (error, EOF, keep-alive timeout, "end job normally") and reports KillReq
 Exit(k) == /\ h' = [h EXCEPT ![k] = DeadH]
@@ -159,11 +161,11 @@ HStart(k) == /\ ~panic /\ h[k].alive /\ ~h[k].wait /\ h[k].trig.t = "Start"
              /\ h' = [h EXCEPT ![k] = [@ EXCEPT !.wait = TRUE]]
              /\ Write(k, <<F("Handshake")>>)
              /\ Enq(k, "Init", None)
-             /\ UNCHANGED <<st, mp, round, bq, stored, panic>>
+             /\ UNCHANGED <<st, mp, mg, bq, stored, panic>>
 \* ... or the connection cannot be established
 HConnFail(k) == /\ ~panic /\ h[k].alive /\ ~h[k].wait /\ h[k].trig.t = "Start"
                 /\ Exit(k) /\ Quiet
-                /\ UNCHANGED <<st, mp, round, bq, stored, panic>>
+                /\ UNCHANGED <<st, mp, mg, bq, stored, panic>>
 
 NewRx(p) == [p |-> p, req |-> {}, nxt |-> 1, bad |-> FALSE]
 \* request the next n blocks of rx (n may exceed what is left)
@@ -178,7 +180,7 @@ AfterReq(rx, n) == LET m == IF rx.nxt + n - 1 > NBlocks[rx.p] THEN NBlocks[rx.p]
 HReject(k) == /\ Idle(k)
               /\ Exit(k)
               /\ Quiet
-              /\ UNCHANGED <<st, mp, round, bq, stored, panic>>
+              /\ UNCHANGED <<st, mp, mg, bq, stored, panic>>
 
 HHandshake(k) ==                                   \* valid handshake
   /\ Idle(k)
@@ -188,11 +190,11 @@ HHandshake(k) ==                                   \* valid handshake
           /\ Enq(k, "Init", None)
      ELSE /\ h' = [h EXCEPT ![k] = [@ EXCEPT !.hs = TRUE, !.ka = 0]]
           /\ Quiet /\ UNCHANGED mq
-  /\ UNCHANGED <<st, mp, round, bq, stored, panic>>
+  /\ UNCHANGED <<st, mp, mg, bq, stored, panic>>
 
 HKeepAlive(k) == /\ Idle(k)
                  /\ Quiet
-                 /\ UNCHANGED <<st, mp, round, mq, h, bq, stored, panic>>
+                 /\ UNCHANGED <<st, mp, mg, mq, h, bq, stored, panic>>
 
 Ready(k) == Idle(k) /\ (h[k].hs \/ Bug("preHandshake"))
 
@@ -200,7 +202,7 @@ HChoke(k) == /\ Ready(k)
              /\ h' = [h EXCEPT ![k] = [@ EXCEPT !.ch = TRUE, !.ka = 0]]
              /\ Enq(k, "Choke", None)
              /\ Quiet
-             /\ UNCHANGED <<st, mp, round, bq, stored, panic>>
+             /\ UNCHANGED <<st, mp, mg, bq, stored, panic>>
 
 HUnchoke(k) ==
   /\ Ready(k)
@@ -212,13 +214,13 @@ HUnchoke(k) ==
           /\ h' = [h EXCEPT ![k] = [@ EXCEPT !.ch = FALSE, !.ka = 0, !.buf = <<>>, !.wait = TRUE, !.trig = F("Unchoke")]]
           /\ Write(k, [i \in 1..Len(h[k].buf) |-> FHave(h[k].buf[i])])
           /\ Enq(k, "Unchoke", None)
-  /\ UNCHANGED <<st, mp, round, bq, stored, panic>>
+  /\ UNCHANGED <<st, mp, mg, bq, stored, panic>>
 
 HInterested(k) == /\ Ready(k)
                   /\ h' = [h EXCEPT ![k] = [@ EXCEPT !.ka = 0]]
                   /\ Enq(k, "Interested", None)
                   /\ Quiet
-                  /\ UNCHANGED <<st, mp, round, bq, stored, panic>>
+                  /\ UNCHANGED <<st, mp, mg, bq, stored, panic>>
 
 HCall(k, trig, c, a) == /\ h' = [h EXCEPT ![k] = [@ EXCEPT !.ka = 0, !.wait = TRUE, !.trig = trig]]
                         /\ Enq(k, c, a)
@@ -226,17 +228,17 @@ HCall(k, trig, c, a) == /\ h' = [h EXCEPT ![k] = [@ EXCEPT !.ka = 0, !.wait = TR
 HNotInterested(k) == /\ Ready(k)
                      /\ HCall(k, F("NotInterested"), "NotInterested", None)
                      /\ Quiet
-                     /\ UNCHANGED <<st, mp, round, bq, stored, panic>>
+                     /\ UNCHANGED <<st, mp, mg, bq, stored, panic>>
 
 HHave(k, p) == /\ Ready(k) /\ p \in Pieces
                /\ HCall(k, FHave(p), "Have", p)
                /\ Quiet
-               /\ UNCHANGED <<st, mp, round, bq, stored, panic>>
+               /\ UNCHANGED <<st, mp, mg, bq, stored, panic>>
 
 HBitfield(k, S) == /\ Ready(k) /\ S \subseteq Pieces
                    /\ HCall(k, FBitfield(S), "Bitfield", S)
                    /\ Quiet
-                   /\ UNCHANGED <<st, mp, round, bq, stored, panic>>
+                   /\ UNCHANGED <<st, mp, mg, bq, stored, panic>>
 
 \* Request for piece p; ok = the range is inside the piece and at most 16 KiB.
 \* A loaded piece is served without asking the manager again.
@@ -249,7 +251,7 @@ HRequest(k, p, ok) ==
                ELSE Exit(k) /\ Quiet
      ELSE /\ HCall(k, [t |-> "Request", p |-> p, ok |-> ok], "Request", p)
           /\ Quiet
-  /\ UNCHANGED <<st, mp, round, bq, stored, panic>>
+  /\ UNCHANGED <<st, mp, mg, bq, stored, panic>>
 
 \* Piece block b of piece p; good = its bytes are the original content
 HPiece(k, p, b, good) ==
@@ -273,12 +275,12 @@ HPiece(k, p, b, good) ==
      ELSE \* not requested (wrong index / offset / length, duplicate, after completion): ignored
           /\ h' = [h EXCEPT ![k] = [@ EXCEPT !.ka = 0]]
           /\ Quiet /\ UNCHANGED <<mq, stored>>
-  /\ UNCHANGED <<st, mp, round, bq, panic>>
+  /\ UNCHANGED <<st, mp, mg, bq, panic>>
 
 HCancel(k) == /\ Ready(k)
               /\ h' = [h EXCEPT ![k] = [@ EXCEPT !.ka = 0]]
               /\ Quiet
-              /\ UNCHANGED <<st, mp, round, mq, bq, stored, panic>>
+              /\ UNCHANGED <<st, mp, mg, mq, bq, stored, panic>>
 
 \* the remote closes the connection (or sends something undecodable): the task ends at once
 HEof(k) == HReject(k)
@@ -300,7 +302,7 @@ HBroadHave(k) ==
                            ELSE /\ Write(k, <<FHave(p)>>)
                                 /\ UNCHANGED h
              /\ UNCHANGED mq
-  /\ UNCHANGED <<st, mp, round, stored, panic>>
+  /\ UNCHANGED <<st, mp, mg, stored, panic>>
 
 HBroadState(k) ==
   /\ Idle(k) /\ bq[k] # <<>> /\ Head(bq[k]).t = "state"
@@ -310,7 +312,7 @@ HBroadState(k) ==
                      /\ h' = [h EXCEPT ![k] = [@ EXCEPT !.tx = IF Bug("cacheAfterChoke") THEN @ ELSE None]]     \* nothing more is served
      ELSE IF v = "U" THEN Write(k, <<F("Unchoke")>>) /\ UNCHANGED h
      ELSE Quiet /\ UNCHANGED h
-  /\ UNCHANGED <<st, mp, round, mq, stored, panic>>
+  /\ UNCHANGED <<st, mp, mg, mq, stored, panic>>
 
 \* keep-alive timer (120 s)
 HTickKA(k) ==
@@ -320,13 +322,13 @@ HTickKA(k) ==
      ELSE /\ h' = [h EXCEPT ![k] = [@ EXCEPT !.ka = @ + 1]]
           /\ Write(k, <<F("KeepAlive")>>)
           /\ UNCHANGED mq
-  /\ UNCHANGED <<st, mp, round, bq, stored, panic>>
+  /\ UNCHANGED <<st, mp, mg, bq, stored, panic>>
 
 \* stats timer (10 s): reports measured rates
 HTickStats(k, dl, ul) == /\ Idle(k)
                          /\ Enq(k, "SyncStats", <<dl, ul>>)
                          /\ Quiet
-                         /\ UNCHANGED <<st, mp, round, h, bq, stored, panic>>
+                         /\ UNCHANGED <<st, mp, mg, h, bq, stored, panic>>
 
 -----------------------------------------------------------------------------
 (* Manager steps: one per handle_* function.  c is the piece choice (in PickSet at that moment). *)
@@ -337,13 +339,13 @@ Pop == mq' = Tail(mq)
 MInit(k) == /\ MHead(k, "Init") /\ Pop
             /\ Reply(k, [t |-> "SendBitfield", s |-> HaveSet])
             /\ Quiet
-            /\ UNCHANGED <<st, mp, round, bq, stored, panic>>
+            /\ UNCHANGED <<st, mp, mg, bq, stored, panic>>
 
 MChoke(k) == /\ MHead(k, "Choke") /\ Pop
              /\ mp' = [mp EXCEPT ![k] = [@ EXCEPT !.ch = TRUE]]
              /\ st' = Release(st, mp[k].pidx)
              /\ Quiet
-             /\ UNCHANGED <<round, h, bq, stored, panic>>
+             /\ UNCHANGED <<mg, h, bq, stored, panic>>
 
 MUnchoke(k, c) ==
   /\ MHead(k, "Unchoke") /\ Pop
@@ -353,12 +355,12 @@ MUnchoke(k, c) ==
   /\ Reply(k, IF c # None THEN [t |-> IF mp[k].amInt THEN "SendRequest" ELSE "SendInterestedAndRequest", p |-> c]
               ELSE [t |-> IF mp[k].amInt THEN "SendNotInterested" ELSE "Ignore"])
   /\ Quiet
-  /\ UNCHANGED <<round, bq, stored, panic>>
+  /\ UNCHANGED <<mg, bq, stored, panic>>
 
 MInterested(k) == /\ MHead(k, "Interested") /\ Pop
                   /\ mp' = [mp EXCEPT ![k] = [@ EXCEPT !.int = TRUE]]
                   /\ Quiet
-                  /\ UNCHANGED <<st, round, h, bq, stored, panic>>
+                  /\ UNCHANGED <<st, mg, h, bq, stored, panic>>
 
 MNotInterested(k, c) ==
   /\ MHead(k, "NotInterested") /\ Pop
@@ -366,7 +368,7 @@ MNotInterested(k, c) ==
   /\ mp' = [mp EXCEPT ![k] = [@ EXCEPT !.int = FALSE]]
   /\ Reply(k, [t |-> IF ~mp[k].amInt /\ mp[k].pidx = None /\ c = None THEN "PrepareKill" ELSE "Ignore"])
   /\ Quiet
-  /\ UNCHANGED <<st, round, bq, stored, panic>>
+  /\ UNCHANGED <<st, mg, bq, stored, panic>>
 
 MHave(k) ==
   /\ MHead(k, "Have") /\ Pop
@@ -384,7 +386,7 @@ MHave(k) ==
           /\ Reply(k, [t |-> "Ignore"])
           /\ UNCHANGED st
   /\ Quiet
-  /\ UNCHANGED <<round, bq, stored, panic>>
+  /\ UNCHANGED <<mg, bq, stored, panic>>
 
 MBitfield(k, c) ==
   /\ MHead(k, "Bitfield") /\ Pop
@@ -399,14 +401,14 @@ MBitfield(k, c) ==
                                             ELSE bq[x]]
               ELSE bq
   /\ Quiet
-  /\ UNCHANGED <<st, round, stored, panic>>
+  /\ UNCHANGED <<st, mg, stored, panic>>
 
 MRequest(k) ==
   /\ MHead(k, "Request") /\ Pop
   /\ LET p == Head(mq).a IN
      Reply(k, [t |-> IF ~mp[k].amCh /\ p \in Pieces /\ st[p].k = "H" THEN "Load" ELSE "Ignore", p |-> p])
   /\ Quiet
-  /\ UNCHANGED <<st, mp, round, bq, stored, panic>>
+  /\ UNCHANGED <<st, mp, mg, bq, stored, panic>>
 
 \* common tail of PieceDone / PieceCancel (Peer::handle_piece) in manager state s
 MPieceTail(k, c, s) ==
@@ -433,7 +435,7 @@ MPieceDone(k, c) ==
           /\ bq' = [x \in Peers |-> IF h[x].alive THEN Append(bq[x], [t |-> "have", p |-> mp[k].pidx]) ELSE bq[x]]
           /\ UNCHANGED panic
   /\ Quiet
-  /\ UNCHANGED <<round, stored>>
+  /\ UNCHANGED <<mg, stored>>
 
 MPieceCancel(k, c) ==
   /\ MHead(k, "PieceCancel") /\ Pop
@@ -442,12 +444,12 @@ MPieceCancel(k, c) ==
      ELSE /\ MPieceTail(k, c, Release(st, mp[k].pidx))
           /\ UNCHANGED panic
   /\ Quiet
-  /\ UNCHANGED <<round, bq, stored>>
+  /\ UNCHANGED <<mg, bq, stored>>
 
 MSyncStats(k) == /\ MHead(k, "SyncStats") /\ Pop
                  /\ mp' = [mp EXCEPT ![k] = [@ EXCEPT !.dl = Head(mq).a[1], !.ul = Head(mq).a[2], !.rated = TRUE]]
                  /\ Quiet
-                 /\ UNCHANGED <<st, round, h, bq, stored, panic>>
+                 /\ UNCHANGED <<st, mg, h, bq, stored, panic>>
 
 \* KillReq: the piece assigned to the peer becomes assignable again, the peer is forgotten
 MKill(k) == /\ MHead(k, "Kill") /\ Pop
@@ -455,12 +457,30 @@ MKill(k) == /\ MHead(k, "Kill") /\ Pop
                      THEN [st EXCEPT ![mp[k].pidx] = [k |-> "M", n |-> 0]] ELSE st
             /\ mp' = [x \in Conn \ {k} |-> mp[x]]
             /\ Quiet
-            /\ UNCHANGED <<round, h, bq, stored, panic>>
+            /\ UNCHANGED <<mg, h, bq, stored, panic>>
+
+\* A good tracker reply adds its peers to the candidates (handle_tracker_cmd); connections are then opened
+\* for candidates while fewer than MaxUnchoked + 1 peers interest us (Connect with inc = FALSE)
+MTrackerPeers(n) == /\ ~panic
+                    /\ mg' = [mg EXCEPT !.cands = @ + n]
+                    /\ Quiet
+                    /\ UNCHANGED <<st, mp, mq, h, bq, stored, panic>>
+\* candidates that are already connected are dropped without a connection attempt
+MDropCands(n) == /\ ~panic /\ n <= mg.cands
+                 /\ mg' = [mg EXCEPT !.cands = @ - n]
+                 /\ Quiet
+                 /\ UNCHANGED <<st, mp, mq, h, bq, stored, panic>>
+\* after a peer was forgotten (handle_kill_req): once every piece is owned the extractor is started, once
+AllHave == \A p \in Pieces : st[p].k = "H"
+MAfterKill == /\ ~panic
+              /\ mg' = [mg EXCEPT !.ext = @ \/ AllHave]
+              /\ Quiet
+              /\ UNCHANGED <<st, mp, mq, h, bq, stored, panic>>
 
 \* Choke rotation (timeout_change_conn_state + change_conn_state).
 \*   order:  the connected peers sorted by rate, best first (ties in any order)
-\*   newOpt: the new optimistic unchoke ({} or one choked interested peer), only in round 0
-IsSeeder == \A p \in Pieces : st[p].k = "H"
+\*   newOpt: the new optimistic unchoke ({} or one choked interested peer), only in mg 0
+IsSeeder == AllHave
 RateOf(k) == IF IsSeeder THEN mp[k].dl ELSE mp[k].ul
 RECURSIVE Rot(_, _, _, _)
 \* walks `order`; returns the new am-choked flag of every peer walked, counting regular slots
@@ -476,13 +496,13 @@ Rot(order, newOpt, count, acc) ==
        IN  Rot(Tail(order), newOpt, IF unch \/ keep THEN count + 1 ELSE count, acc @@ (k :> ch1))
 MRotate(order, newOpt) ==
   /\ ~panic
-  /\ round' = (round + 1) % OptRounds
+  /\ mg' = [mg EXCEPT !.r = (@ + 1) % OptRounds]
   /\ IF \E k \in Conn : ~mp[k].rated
      THEN /\ Quiet /\ UNCHANGED <<st, mp, mq, h, bq, stored, panic>>       \* not all peers reported yet
      ELSE /\ Len(order) = Cardinality(Conn) /\ {order[i] : i \in 1..Len(order)} = Conn
           /\ \A i, j \in 1..Len(order) : i < j => RateOf(order[i]) >= RateOf(order[j])
           /\ newOpt \subseteq {k \in Conn : mp[k].amCh /\ mp[k].int}
-          /\ IF round' = 0 /\ \E k \in Conn : mp[k].amCh /\ mp[k].int
+          /\ IF mg'.r = 0 /\ \E k \in Conn : mp[k].amCh /\ mp[k].int
              THEN Cardinality(newOpt) = 1 ELSE newOpt = {}
           /\ LET res == Rot(order, newOpt, 0, <<>>)
                  newCh(k) == IF k \in newOpt THEN FALSE ELSE res[k]
@@ -558,7 +578,7 @@ HReply(k, n) ==
                  THEN Resume(k, [hk EXCEPT !.tx = r.p]) /\ Write(k, <<FPiece(r.p, 0)>>) /\ UNCHANGED <<mq, bq>>
                  ELSE /\ h' = [h EXCEPT ![k] = DeadH]
                       /\ Enq(k, "Kill", None) /\ Quiet /\ UNCHANGED bq
-  /\ UNCHANGED <<st, mp, round, stored, panic>>
+  /\ UNCHANGED <<st, mp, mg, stored, panic>>
 
 -----------------------------------------------------------------------------
 FK(t) == t \in FrameKinds
@@ -584,7 +604,8 @@ HandlerStep(k) ==
   \/ \E n \in Pipeline : HReply(k, n)
 
 ManagerStep ==
-  \E k \in Peers :
+  \/ (AllHave /\ ~mg.ext /\ MAfterKill)
+  \/ \E k \in Peers :
      \/ MInit(k) \/ MChoke(k) \/ MInterested(k) \/ MHave(k) \/ MRequest(k) \/ MSyncStats(k) \/ MKill(k)
      \/ \E c \in Pieces \cup {None} : MUnchoke(k, c) \/ MNotInterested(k, c) \/ MBitfield(k, c)
                                       \/ MPieceDone(k, c) \/ MPieceCancel(k, c)
@@ -699,7 +720,7 @@ PickSound == \A k \in Conn : \A c \in PickSet(k) :
 \* --- C14 ----------------------------------------------------------------------------------
 SlotBound == /\ Cardinality({k \in Conn : ~mp[k].amCh /\ ~mp[k].opt}) <= MaxUnchoked
              /\ Cardinality({k \in Conn : ~mp[k].amCh /\ mp[k].opt}) <= 1
-RotExecuted == round' # round /\ DOMAIN mp' = Conn /\ \A k \in Conn : mp[k].rated
+RotExecuted == mg'.r # mg.r /\ DOMAIN mp' = Conn /\ \A k \in Conn : mp[k].rated
 PolicyAfter == /\ \A k \in Conn : ~mp'[k].amCh /\ ~mp'[k].opt => mp[k].int
                /\ \A k \in Conn : ~mp[k].int => mp'[k].amCh
                /\ ~\E a, b \in Conn : /\ mp[a].int /\ mp'[a].amCh
@@ -716,6 +737,9 @@ C01Step == [][(ServedImpliesStored /\ AdvertisedImpliesStored)']_vars
 C08Step == [][(SilentBeforeHandshake /\ NoDataBeforeHandshake /\ OwnHandshakeFirst)']_vars
 C09Step == [][ServeOnlyUnchoked']_vars
 C10Step == [][RequestsTile']_vars
+
+\* --- beyond the listed properties: the extractor is started only with a complete store -----------
+ExtractOnlyComplete == mg.ext => AllHave
 
 \* --- C20 ----------------------------------------------------------------------------------
 KaBound == \A k \in Peers : h[k].ka <= KALimit
